@@ -266,6 +266,39 @@ def quadrature_histories(repo, sfi):
     return problems, n
 
 
+def transmission_histories(repo, cfi):
+    """Two compute_transmission_map calls in ONE interpreter (module-level state persists), other wavelengths the second time (and
+    the same again): the second map must be the one a fresh interpreter computes.  -> (problems per fq, number of histories)"""
+    def request(wi, wm, tag, first_value):
+        shape = ShapeStub(wi, wm)
+        material = MaterialStub(wi, wm)
+        beam = make_param(wi, 'beam', P(kind='vector', dim='ONE', dtype='vector3', unit=Unit()))
+        beam.members['dims'] = []
+        det = make_param(wi, 'det', P(kind='vector', dim='L', dtype='vector3', unit=Unit.named('m')))
+        det.members['dims'] = []
+        wav = wm.array(wi, [sym_scalar(wi, wm, f'lam{tag}{j}', Unit.named('angstrom'), first_value + j, positive=True) for j in range(2)], 'wavelength')
+        kind_, res = call(wi, cfi, [], {'sample_shape': shape, 'sample_material': material, 'beam_direction': beam, 'wavelength': wav,
+                                        'detector_position': det, 'quadrature_kind': 'cheap'})
+        if kind_ != 'return' or not isinstance(res, SVar) or items_of(res) is None:
+            return (kind_, repr(res)[:80])
+        return ('return', tuple(T.show(x.term) if x.term is not None else None for x in items_of(res)))
+    problems: dict = {}
+    n = 0
+    for first, second in ((('A', 1), ('B', 3)), (('B', 3), ('A', 1)), (('A', 1), ('A', 1))):
+        T.reset()
+        wm = WitnessModel()
+        fresh = request(WitnessInterp(repo, wm), wm, *second)
+        wm2 = WitnessModel()
+        wi2 = WitnessInterp(repo, wm2)
+        request(wi2, wm2, *first)
+        wi2.end_of_call()
+        got = request(wi2, wm2, *second)
+        n += 1
+        if got != fresh:
+            problems.setdefault(cfi.fq, []).append({'history': [f'wavelengths {first}', f'wavelengths {second}'], 'fresh': str(fresh)[:200], 'after_the_first': str(got)[:200]})
+    return problems, n
+
+
 def orientation_histories(repo, qfi, sfi):
     """Two Cylinder.quadrature calls in ONE interpreter (module-level tables and caches persist) for two cylinders whose axes differ
     in the sign of one component, in every combination of components (the axes of such a pair share e_z x axis, or its length, or
@@ -664,8 +697,8 @@ def run(tier: str) -> Run:
 
     # ---- R6 ---------------------------------------------------------------------------------------
     r6 = run.rule('R6', 'quadrature rules do not depend on call history (two-request histories of the rule selection in one interpreter: after any '
-                        'other request the rule is the one a fresh interpreter hands out) and no memoised array is handed out; the transmission code '
-                        'writes no module-level state', 3)
+                        'other request the rule is the one a fresh interpreter hands out; two cylinders whose axes differ in the sign of a component; '
+                        'two transmission maps with other wavelengths) and no memoised array is handed out', 3)
     qh_problems, qh_n = quadrature_histories(repo, select_fi)
     qfi = repo.func(MOD, 'Cylinder.quadrature')
     if select_fi.fq in qh_problems:
@@ -675,5 +708,6 @@ def run(tier: str) -> Run:
         qh_problems.setdefault(qfi.fq, []).extend(oh_bad)
     qh_n += oh_n
     eff6 = history_free(repo, [qfi, select_fi], r6, histories=(qh_problems, qh_n))
-    history_free(repo, [repo.func(bmod, 'compute_transmission_map')], r6, eff=eff6, decided_elsewhere=[qfi, select_fi])
+    tfi6 = repo.func(bmod, 'compute_transmission_map')
+    history_free(repo, [tfi6], r6, eff=eff6, histories=transmission_histories(repo, tfi6))
     return run
